@@ -735,6 +735,72 @@ def run_case(case):
     return doc, uidx, oracle(case, doc, uidx)
 
 
+def pair_instances(case, doc):
+    """(leaf of the case, GeometryNode/ControllerNode of the document) pairs, every object once"""
+    pairs, seen = [], set()
+
+    def walk(cn, on):
+        if cn[0] == 'n':
+            for c, o in zip(cn[2], list(on.children)):
+                walk(c, o)
+        elif cn[0] in ('ig', 'ic') and id(on) not in seen:
+            seen.add(id(on))
+            pairs.append((cn, on))
+    top = dict((getattr(n, 'id', None), n) for n in list(doc.scene.nodes) + list(doc.nodes))
+    for i, sh in enumerate(case['shared']):
+        if 'N%d' % i in top:
+            walk(sh, top['N%d' % i])
+    for r, o in zip(case['roots'], doc.scene.nodes):
+        if r[0] not in ('s', 'r'):
+            walk(r, o)
+    return pairs
+
+
+def retraverse(case, doc, uidx, eseed):
+    """the scene has been traversed; now edit binding tables of its instances and traverse again: the second traversal
+    must reflect the edited tables. Returns None or (signature, description)."""
+    import random
+    from collada import scene
+    r = random.Random('c12re/%s' % eseed)
+    c2 = copy.deepcopy(case)
+    pairs = pair_instances(c2, doc)
+    if not pairs:
+        return 'skip'
+    hist = []
+    for cn, on in pairs:
+        if r.random() < 0.35:
+            continue
+        k = r.choice(['append', 'delete', 'symbol', 'target', 'replace'])
+        if k == 'append' or not cn[2]:
+            s, m = r.choice(BIND_SYMS), r.randrange(case['nmat'])
+            on.materials.append(scene.MaterialNode(s, doc.materials['m%d' % m], []))
+            cn[2].append([s, m])
+            k = 'append'
+        elif k == 'delete':
+            i = r.randrange(len(cn[2]))
+            del on.materials[i]
+            del cn[2][i]
+        elif k == 'symbol':
+            i = r.randrange(len(cn[2]))
+            on.materials[i].symbol = cn[2][i][0] = r.choice(BIND_SYMS)
+        elif k == 'target':
+            i = r.randrange(len(cn[2]))
+            m = r.randrange(case['nmat'])
+            on.materials[i].target = doc.materials['m%d' % m]
+            cn[2][i][1] = m
+        else:
+            new = gen_binds(r, case['nmat'])
+            on.materials = [scene.MaterialNode(s_, doc.materials['m%d' % m_], []) for s_, m_ in new]
+            cn[2][:] = new
+        hist.append(k)
+    if not hist:
+        return 'skip'
+    bad = oracle(c2, doc, uidx)
+    if bad:
+        return ('retraverse:' + bad[0], 'after a traversal, binding tables were edited (%s) and the scene traversed again: %s' % (','.join(hist), bad[1]))
+    return None
+
+
 # ----------------------------------------------------------------------------- shrinking
 
 def _variants(node):
@@ -884,6 +950,7 @@ def run(ctx):
                 ctx.violation('corr:driver:malformed', 'driver accepted malformed request %r -> %r' % (req[:80], ans[:80]),
                               dict(kind='driver', line=req), found_input=False)
     pos = 0
+    nre = 0
     reported = set()
     for c, (doc, uidx, bad) in zip(cases, built):
         f, nrefs = features(c)
@@ -927,11 +994,29 @@ def run(ctx):
                                   dict(kind='correspondence', case=c, model=want, impl=got), found_input=False)
         if doc is not None:
             pos += 4
+        if doc is not None and not bad and nre < ctx.n(300, 6000):
+            eseed = ctx.rng.randrange(10 ** 9)
+            try:
+                rb = retraverse(c, doc, uidx, eseed)
+            except Exception as e:
+                rb = ('retraverse:raises', 'editing binding tables and traversing again raised %s: %s' % (type(e).__name__, e))
+            if rb != 'skip':
+                nre += 1
+                ctx.count('retraverse')
+                if rb and 'c12:' + rb[0] not in reported:
+                    reported.add('c12:' + rb[0])
+                    ctx.violation('c12:' + rb[0], rb[1], dict(kind='retraverse', case=c, eseed=eseed), found_input=True)
     ctx.assumptions.append('float32 arithmetic is exact on the generated integer cases (every partial sum < 2^23); '
                            'ElementTree parsing and numpy dot/asmatrix semantics are modelled, not verified')
 
 
 def replay(ctx, rep):
+    if rep.get('kind') == 'retraverse':
+        doc, uidx, bad = run_case(rep['case'])
+        rb = retraverse(rep['case'], doc, uidx, rep['eseed']) if doc is not None and not bad else None
+        if rb and rb != 'skip':
+            print('  ' + rb[1])
+        return bool(rb) and rb != 'skip'
     if rep.get('kind') not in ('oracle', 'correspondence'):
         print('  nothing to re-run on the implementation for %r' % rep.get('kind'))
         return False
